@@ -25,7 +25,9 @@ ASSUMPTIONS = ['an envelope is None iff the iterate has fewer than two strict in
 RULE = ('random signals of 9 families (noise, random walk, tones+trend, AM/FM, integer plateaus, constants, ramps, engineered '
         'few-extrema n=5..16, perfect IMFs) x stop rule {sd, rilling, fixed} x thresholds over their documented ranges x step in (0,1] '
         'x max_iters {1,2,3,5,10,50,1000} x interpolation {splrep,pchip,mono_pchip} x pad_width {1,2,3,5} x energy threshold '
-        '{none,1,5,20,50}; plus direct calls of the public stop functions. Non-trivial: the extraction leaves the loop after at '
+        '{none,1,5,20,50}; plus intermittent signals (isolated spikes on low noise, amplitude bursts) under the Rilling rule, part of them '
+        'rejection-sampled so that samples where the cubic-spline envelopes cross (upper < lower) decide the rule at some iterate (tag '
+        'rilling-envelopes-cross); plus direct calls of the public stop functions, incl. envelope pairs crossing at a few or all samples. Non-trivial: the extraction leaves the loop after at '
         'least one completed mean removal (exit index >= 1), by the convergence error, or through the energy flag; distinct by content hash.')
 
 IMPL_TIMEOUT = 10
@@ -42,6 +44,66 @@ def _jsonable_ref(ref):
 def _rows(out):
     return [(np.array(h), None if U is None else np.array(U), None if L is None else np.array(L))
             for h, U, L in out['ref']['rows']]
+
+
+# ---------------------------------------------------------------------------------------------
+# crossing envelopes (upper < lower somewhere): cubic-spline overshoot between sparse extrema of intermittent signals.
+# The mode amplitude of the Rilling rule is |upper-lower|/2, so exactly those samples have a small amplitude, a large
+# |mean|/amplitude and keep the sift going (round-2 seeded change C04-3 dropped the absolute value).
+
+def intermittent(rng, fam, n):
+    """'spikes': low-level noise with a few large isolated excursions; 'burst': noise under a strongly varying
+    amplitude profile.  About 10 % of Rilling extractions on these (splrep) pass an iterate whose crossing samples
+    decide the rule (measured; white noise / random walks: < 1 %)."""
+    nrng = np.random.default_rng(rng.getrandbits(63))
+    if fam == 'spikes':
+        x = 0.05 * nrng.standard_normal(n)
+        for _ in range(max(2, n // rng.choice([6, 10]))):
+            x[rng.randrange(n)] += rng.choice([-1, 1]) * rng.uniform(1, 5)
+        return np.round(x, 2) if rng.random() < 0.5 else x
+    prof = np.exp(2 * np.sin(2 * np.pi * np.arange(n) / n * rng.uniform(1, 3) + rng.uniform(0, 6.28)))
+    return nrng.standard_normal(n) * prof
+
+
+def crossing(o, rows, upto):
+    """'none' | 'present' | 'decisive' over the iterates rows[0..upto]: do the envelopes cross (upper < lower at some
+    sample), and is there an iterate at which the Rilling rule evaluated on the non-crossing samples alone would fire
+    while the rule on all samples does not."""
+    sd1, sd2, tol = o['rilling_thresh']
+    seen = 'none'
+    for h, U, L in rows[:upto + 1]:
+        if U is None or L is None:
+            break
+        cr = U < L
+        if not cr.any():
+            continue
+        seen = 'present'
+        a, amp = np.abs((U + L) / 2), np.abs(U - L) / 2
+        every = not (np.mean(a > sd1 * amp) > tol or np.any(a > sd2 * amp))
+        rest = not (np.mean((a > sd1 * amp) & ~cr) > tol or np.any((a > sd2 * amp) & ~cr))
+        if rest and not every:
+            return 'decisive'
+    return seen
+
+
+def gen_crossing(rng, nmax, tries=40):
+    """Rejection-sample an intermittent signal + Rilling options whose documented iterate sequence passes an iterate
+    at which the crossing samples decide (see `crossing`). None if not found."""
+    for _ in range(tries):
+        fam = rng.choice(['spikes', 'burst'])
+        x = intermittent(rng, fam, rng.choice([n for n in (10, 12, 16, 24, 32, 48, 64, 128) if n <= nmax]))
+        sd1 = rng.choice([0.05, 0.05, 0.1])
+        o = {'stop_method': 'rilling', 'rilling_thresh': [sd1, rng.choice([0.5, 0.5, 1.0]), rng.choice([0.05, 0.05, 0.1])],
+             'env_step_size': rng.choice([1, 1, 0.5]), 'max_iters': rng.choice([50, 50, 1000]), 'interp_method': 'splrep',
+             'pad_width': rng.choice([1, 2, 2, 3]), 'energy_thresh': None}
+        try:
+            ref = S.reference(x, o, extra=0)
+        except Exception:  # noqa
+            continue
+        if ref['exit'] and not ref['truncated'] and ref['margin'] >= 1e-4 and \
+                crossing(o, ref['rows'], ref['exit'][1]) == 'decisive':
+            return fam, x, o
+    return None
 
 
 class Gni(Stream):
@@ -66,6 +128,17 @@ class Gni(Stream):
                       'opts': dict(base, stop_method='fixed', max_iters=n, env_step_size=0.5), 'family': 'corpus-fixed'})
         # D20: perfect IMF, zero residual energy, energy threshold given
         c.append({'x': [1.0, -1.0] * 6, 'opts': dict(base, energy_thresh=50), 'family': 'corpus-d20'})
+        # crossing envelopes decide the Rilling rule at an iterate before the exit (round-2 seeded change: with the mode
+        # amplitude taken without its absolute value the extraction stops early on each of these)
+        ril = dict(base, stop_method='rilling', rilling_thresh=[0.05, 0.5, 0.05], max_iters=50)
+        c.append({'x': [0.93, -1.0, 0.02, 0.0, 0.01, -0.02, 0.01, -0.08, -0.17, 0.02], 'opts': dict(ril, pad_width=1),
+                  'family': 'corpus-crossing'})
+        c.append({'x': [3.27, -0.02, 2.33, 0.13, 0.12, -0.11, -0.0, 0.04, -0.05, -0.02],
+                  'opts': dict(ril, pad_width=1, env_step_size=0.5), 'family': 'corpus-crossing'})
+        c.append({'x': [-0.04, 3.59, -0.02, 0.04, -0.04, -0.12, 0.04, 0.01, -0.02, 0.04, -0.14, 1.4], 'opts': dict(ril),
+                  'family': 'corpus-crossing'})
+        c.append({'x': [0.01, 3.74, 0.03, 0.05, 0.04, 0.04, 0.02, -0.0, -0.01, 0.01, 0.0, 0.03, -0.07, -1.56], 'opts': dict(ril),
+                  'family': 'corpus-crossing'})
         return c
 
     def generate(self, rng, tier):
@@ -83,6 +156,24 @@ class Gni(Stream):
             o = S.gen_opts(rng, tier, family=fam)
             if len(x) > 96 and o['max_iters'] > 50:
                 o['max_iters'] = 50
+            yield {'x': S.fr_list(x), 'opts': o, 'family': fam}
+        # intermittent signals under the Rilling rule: cubic-spline envelopes overshoot and cross (upper < lower)
+        nmax = 128 if tier == 'thorough' else 48
+        for i in range(80 if tier == 'thorough' else 6):
+            fxo = gen_crossing(rng, nmax)
+            if fxo is not None:
+                yield {'x': S.fr_list(fxo[1]), 'opts': fxo[2], 'family': fxo[0]}
+        for i in range(600 if tier == 'thorough' else 36):
+            fam = rng.choice(['spikes', 'burst'])
+            x = intermittent(rng, fam, rng.choice([12, 16, 24, 32, 48, nmax]))
+            o = S.gen_opts(rng, tier, family=fam)
+            if rng.random() < 0.8:
+                o.pop('sd_thresh', None)
+                sd1 = rng.choice([0.05, 0.05, 0.1, round(rng.uniform(0.01, 0.3), 3)])
+                o.update(stop_method='rilling', interp_method=rng.choice(['splrep', 'splrep', 'splrep', 'pchip']),
+                         max_iters=rng.choice([10, 50, 50]),
+                         rilling_thresh=[sd1, rng.choice([0.5, 1.0, round(sd1 + rng.uniform(0.05, 1), 3)]),
+                                         rng.choice([0.05, 0.1, 0.3])])
             yield {'x': S.fr_list(x), 'opts': o, 'family': fam}
 
     def impl(self, case):
@@ -252,6 +343,8 @@ class Gni(Stream):
         elif out['ref']['exit']:
             kind, k, _ = out['ref']['exit']
             t.append('exit=%s@%s' % (kind, '0' if k == 0 else '1' if k == 1 else '2-5' if k <= 5 else '>5'))
+            if o['stop_method'] == 'rilling':
+                t.append('rilling-envelopes-cross=' + crossing(o, _rows(out), k))
         res = out['res']
         t.append('impl=' + (res['error'] if 'error' in res else 'flag%d' % res['flag']))
         return t
@@ -301,6 +394,16 @@ class StopRules(Stream):
             {'rule': 'rilling', 'U': [0.0, 1.0, 1.0, 1.0], 'L': [0.0, -1.0, -1.0, -1.0], 'th': [0.05, 0.5, 0.3]},  # 0/0
             {'rule': 'sd', 'h': [1.0, -1.0, 1.0], 'x1': [1.0, -1.0, 1.0], 'thr': 0.1},
             {'rule': 'sd', 'h': [0.0, 0.0, 0.0], 'x1': [0.0, 0.0, 0.0], 'thr': 0.1},
+            # crossing envelopes (upper < lower at sample 2): amplitude |U-L|/2 = 0.1, |mean| = 0.1, ratio 1 > sd2: no stop
+            {'rule': 'rilling', 'U': [1.0, 1.0, 0.0, 1.0], 'L': [-1.0, -1.0, 0.2, -1.0], 'th': [0.05, 0.5, 0.3]},
+            # crossing at 2 of 20 samples with ratio 0.2 in (sd1, sd2): fraction 0.1 > tol 0.05: no stop
+            {'rule': 'rilling', 'U': [1.0] * 9 + [-0.04, -0.04] + [1.0] * 9, 'L': [-1.0] * 9 + [0.06, 0.06] + [-1.0] * 9,
+             'th': [0.05, 0.5, 0.05]},
+            # crossing but symmetric about zero there (mean 0): stop
+            {'rule': 'rilling', 'U': [1.0, 1.0, -0.1, 1.0], 'L': [-1.0, -1.0, 0.1, -1.0], 'th': [0.05, 0.5, 0.3]},
+            # upper below lower everywhere (swapped arguments): the rule depends on |U-L| only
+            {'rule': 'rilling', 'U': [-1.0, -1.1, -0.9, -1.0], 'L': [1.0, 1.0, 1.0, 1.2], 'th': [0.05, 0.5, 0.3]},
+            {'rule': 'rilling', 'U': [-1.0, -1.1, -0.9, -0.2], 'L': [1.0, 1.0, 1.0, 1.2], 'th': [0.05, 0.5, 0.3]},
         ]
 
     def generate(self, rng, tier):
@@ -326,6 +429,20 @@ class StopRules(Stream):
                 imf = nrng.standard_normal(n) * rng.choice([1, 10, 1e-3])
                 res = nrng.standard_normal(n) * rng.choice([1, 1e-2, 1e-4, 0])
                 yield {'rule': 'energy', 'imf': S.fr_list(imf), 'res': S.fr_list(res), 'thresh': rng.choice([50, 20, 5, 80])}
+        # Rilling rule on envelope pairs that cross (upper < lower) at a few samples: the mode amplitude there is
+        # |upper-lower|/2; the mean at those samples is placed below sd1, between sd1 and sd2, or above sd2 times it
+        for i in range(1500 if tier == 'thorough' else 200):
+            n = rng.randint(4, 40)
+            nrng = np.random.default_rng(rng.getrandbits(63))
+            th = [rng.choice([0.05, 0.1, 0.02]), rng.choice([0.5, 0.3, 1.0]), rng.choice([0.05, 0.1, 0.25, 0.5])]
+            amp = np.abs(nrng.standard_normal(n)) + 0.5
+            base = nrng.standard_normal(n) * amp * rng.choice([0.0, 0.01, 0.03])      # elsewhere: ratio mostly below sd1
+            ncr = n if rng.random() < 0.1 else rng.randint(1, max(1, n // 4))
+            for j in rng.sample(range(n), ncr):
+                amp[j] = -abs(float(nrng.standard_normal())) * rng.choice([0.01, 0.1, 1]) - 1e-3
+                ratio = rng.choice([0.0, 0.5 * th[0], 0.5 * (th[0] + th[1]), 2 * th[1], 10 * th[1]])
+                base[j] = rng.choice([-1, 1]) * ratio * abs(amp[j])
+            yield {'rule': 'rilling', 'U': S.fr_list(base + amp), 'L': S.fr_list(base - amp), 'th': th}
 
     def impl(self, case):
         import emd
@@ -422,6 +539,17 @@ class StopRules(Stream):
         t = ['rule=' + case['rule']]
         if not isinstance(out, ImplError):
             t.append('%s-stop=%d' % (case['rule'], out['stop']))
+        if case['rule'] == 'rilling':
+            U, L = np.array(case['U']), np.array(case['L'])
+            cr = U < L
+            if cr.any():
+                sd1, sd2, tol = case['th']
+                a, amp = np.abs((U + L) / 2), np.abs(U - L) / 2
+                every = not (np.mean(a > sd1 * amp) > tol or np.any(a > sd2 * amp))
+                rest = not (np.mean((a > sd1 * amp) & ~cr) > tol or np.any((a > sd2 * amp) & ~cr))
+                t.append('rilling-envelopes-cross=' + ('decisive' if rest and not every else 'present'))
+            else:
+                t.append('rilling-envelopes-cross=none')
         return t
 
     def nontrivial(self, case, out):
